@@ -167,9 +167,15 @@ def run_property(prop, tier="quick", repo_root="/repo", seed=0, only=None, verbo
         ob = x["obligation"]
         model = x.get("model") or {}
         args = {k[4:]: v for k, v in model.items() if k.startswith("arg_")}
+        obs = {}
+        for k, (pth, sname, terms) in enumerate(ob.extra.get("observables", [])):
+            if ("obs!%d" % k) in model:
+                obs[pth] = dict(sort=sname, value=model["obs!%d" % k])
+        from .values import ATOMS
+        atoms = {str(c): n for c, n in ATOMS.names.items()}
         replay = dict(
             property=prop, obligation=name, function=ob.func, kind=ob.kind, line=ob.line, path=ob.path, path_labels=ob.extra.get("labels"),
-            violated_clause=ob.extra.get("clause"), solver=x["solver"], solver_output="sat", model_args=args,
+            violated_clause=ob.extra.get("clause"), solver=x["solver"], solver_output="sat", model_args=args, pre_state=obs, atoms=atoms,
             model=model.get("__full__", "")[:6000], source_sha256=[r.info.get("sha256") for c, r in fun_results if r is not None and c.qual == ob.func],
         )
         native = run_replay(prop, replay, repo_root)
@@ -311,7 +317,16 @@ def main(argv=None):
     ap.add_argument("--only", default=None)
     ap.add_argument("-v", action="store_true")
     ap.add_argument("--no-evidence", action="store_true")
+    ap.add_argument("--replay", default=None, help="re-run the native replay of a replay file written by an earlier run")
     a = ap.parse_args(argv)
+    if a.replay:
+        rec = json.load(open(a.replay))
+        res = run_replay(a.prop, rec, a.repo)
+        print(json.dumps(res, indent=1, default=str))
+        if res and res.get("confirmed"):
+            print("VIOLATION property=%s replay=%s" % (a.prop, a.replay))
+            sys.exit(1)
+        sys.exit(0)
     seed = int(os.environ.get("VERIF_SEED", "0"))
     try:
         rc = run_property(a.prop, a.tier, a.repo, seed, a.only, a.v, not a.no_evidence)
